@@ -33,6 +33,7 @@ def constants(tier):
         "AllowStop": True,
         "AllowNatural": True,
         "AllowPreEdit": True,
+        "FullHistory": False,
     }
     c.update(FIXED_CONSTANTS)
     return c
@@ -226,14 +227,16 @@ def run_behaviour(item):
         with open(os.path.join(root, HIST_FILE), "wb") as f:
             f.write(b"h0\n")
         fs = Faulty(fscommands.FileSystemCommands(), root)
-        project = project_mod.Project(root, fscommands=fs, ropefolder=None)
+        full = beh["dir"] == "do" and beh.get("hist0") == [1, 0]     # spec: FullHistory
+        project = project_mod.Project(root, fscommands=fs, ropefolder=None, **({"max_history_items": 1} if full else {}))
         hres = project.get_file(HIST_FILE)
         # history before the call: one undoable, one redoable change
         for text in ("h1\n", "h2\n"):
             c = change_mod.ChangeSet("prior " + text.strip())
             c.add_change(change_mod.ChangeContents(hres, text))
             project.do(c)
-        project.history.undo()
+        if not full:
+            project.history.undo()
         cs = beh["cs"]
         n = len(cs)
         changes = build_changeset(project, cs, nest, change_mod)
@@ -392,6 +395,24 @@ def main(tier):
                   coverage=(tier == "quick"))
     os.unlink(cfg)
     print("TLC RopeChange:", res.summary())
+    # the same calls on a history that is already at its limit (limit 1): a failed or interrupted call
+    # must not cost the oldest entry
+    cf = constants("quick")
+    cf.update({"FullHistory": True, "Directions": {"do"}, "AllowPreEdit": False, "MaxLeaves": 2})
+    cfgf = os.path.join(common.SCRATCH_BASE, "c10f_%d.cfg" % os.getpid())
+    tlc.write_cfg(cfgf, constants=cf, invariants=INVARIANTS + ["Export"])
+    full_behs = []
+    resf = tlc.run("MC_RopeChange", cfgf, on_tagged=lambda t, v: full_behs.append(v), collect_tags=False)
+    os.unlink(cfgf)
+    print("TLC RopeChange[full history]:", resf.summary(), "behaviours:", len(full_behs))
+    if not resf.ok:
+        if resf.violated:
+            path = common.write_replay(PROP, {"kind": "tlc-counterexample", "invariant": resf.violated,
+                                              "trace": resf.trace})
+            print("VIOLATION property=%s replay=%s" % (PROP, path))
+            return 1
+        print("MACHINERY-FAILURE property=%s TLC[full history]: %s\n%s" % (PROP, resf.error, resf.tail))
+        return 2
     if not res.ok:
         if res.violated:
             # the model of the code as it is admits a non-atomic behaviour
@@ -472,6 +493,14 @@ def main(tier):
         behs = [sample_b] if sample_b else []
         import gc
         gc.collect()
+    # full-history behaviours: every failing one, a seeded sample of the successful ones
+    full_behs.sort(key=lambda b: json.dumps(b, sort_keys=True))
+    f_fail = [b for b in full_behs if b["result"] != "ok"]
+    f_ok = [b for b in full_behs if b["result"] == "ok"]
+    rnd.shuffle(f_ok)
+    full_chosen = (f_fail[:12000] if tier == "quick" else f_fail) + f_ok[:1500]
+    total += len(full_behs)
+    items += [((b if tier == "quick" else json.dumps(b, separators=(",", ":"))), None) for b in full_chosen]
     counts = {"ok": 0, "error": 0, "rberror": 0}
     conf_mismatch = {}
     nontrivial = set()
